@@ -34,7 +34,7 @@ SINGLE = [
     "-\n", "+\n", "- a\n-\n", "-\n- b\n", "```\nc\n```\n", "~~~\nc\n~~~\n", "    code\n", "<div>\nx\n</div>\n", "<!-- c -->\n", "[r]: /u\n", "[r]: /u\n'title'\n",
     "a|b\n-|-\n1|2\n", "|a|\n|-|\n", "> - a\n", "- > a\n", "- a\n  - b\n", "> # h\n", "> ```\n> c\n", "- ```\n  c\n  ```\n", "*e*\n", "a  \nb\n", "> a\n> ===\n",
     "# h\n- a\n-\n", "> q\n2. x\n", "- a\n\n  b\n", "1. a\n\n   b\n2. c\n", "* a\n+ b\n", "> a\n\n> b\n", "<pre>\n\nx\n</pre>\n", "[a]: /u\n[b]: /v\n", "a\n- b\n",
-    "a\n1. b\n", "a\n2. b\n", "a\n> b\n", "a\n# b\n", "a\n```\nb\n```\n", "  a\n", "   # h\n", "- a\n\n\n  b\n", "-   a\n\n    b\n", "10. a\n    b\n",
+    "a\n1. b\n", "a\n2. b\n", "a|b\n-|-\nc|d\n2. x\n", "a|b\n-|-\nc|d\n-\n", "|a|\n|-|\n7) x\n", "a|b\n-|-\n> q\n", "- a\n  - b\n", "1. a\n   1. b\n", "> - a\n>   - b\n", "a\n> b\n", "a\n# b\n", "a\n```\nb\n```\n", "  a\n", "   # h\n", "- a\n\n\n  b\n", "-   a\n\n    b\n", "10. a\n    b\n",
 ]
 
 
